@@ -163,6 +163,12 @@ func boolFact(facts []Fact, s *Sym) (val, known bool) {
 				return b, true
 			}
 		}
+		// x != true is x == false (a named bool option compared with its constants)
+		if f.X.Key() == s.Key() && f.Op == token.NEQ {
+			if b, ok := f.Y.boolConst(); ok {
+				return !b, true
+			}
+		}
 	}
 	return false, false
 }
